@@ -139,6 +139,7 @@ type fsEngine struct {
 	nextDir         int
 	infra           string
 	altExp          []byte // what `falco fmt` prints for altSrc
+	altByInput      map[string][]byte
 }
 
 // altSrc is what the user's file holds when falco fmt -w is run again after a
@@ -157,6 +158,32 @@ func (e *fsEngine) initAlt() error {
 	}
 	e.altExp = exp["alt.vcl"]
 	return nil
+}
+
+// altExpFor is what `falco fmt` prints for altSrc in the directory of this
+// input: a project configuration file there changes the formatted text.
+func (e *fsEngine) altExpFor(in *fsInput) []byte {
+	if _, ok := in.Files[".falco.yaml"]; !ok {
+		return e.altExp
+	}
+	e.mu.Lock()
+	if b, ok := e.altByInput[in.Name]; ok {
+		e.mu.Unlock()
+		return b
+	}
+	e.mu.Unlock()
+	alt := &fsInput{Class: in.Class, Name: in.Name + "+alt", Files: map[string]string{"alt.vcl": altSrc, ".falco.yaml": in.Files[".falco.yaml"]}, Args: []string{"alt.vcl"}}
+	var b []byte
+	if exp, err := e.expectedFor(alt); err == nil {
+		b = exp["alt.vcl"]
+	}
+	e.mu.Lock()
+	if e.altByInput == nil {
+		e.altByInput = map[string][]byte{}
+	}
+	e.altByInput[in.Name] = b
+	e.mu.Unlock()
+	return b
 }
 
 func (e *fsEngine) newCaseDir() string {
@@ -372,6 +399,17 @@ func (e *fsEngine) execFault(in *fsInput, exp map[string][]byte, f fsFault) (*fs
 		}
 		isOrig := bytes.Equal(got, orig)
 		isExp := exp[name] != nil && bytes.Equal(got, exp[name])
+		if !isOrig && !isExp && e.styleChangedByConfigFault(in, name, f, out, got) {
+			// The fault landed on the discovery or reading of the project's
+			// configuration file, and `falco fmt FILE` meeting the same fault
+			// prints exactly these bytes: -w wrote what fmt prints in the
+			// environment the fault creates. Which configuration applies when the
+			// file cannot be examined is not this property's subject.
+			e.mu.Lock()
+			e.probes["configuration_fault_changed_style_for_fmt_and_fmt_w_alike"]++
+			e.mu.Unlock()
+			continue
+		}
 		if !isOrig && !isExp {
 			out.violation = fmt.Sprintf("after the run %s holds %d bytes that are neither its original %d bytes nor the %s text of `falco fmt` (exit=%d %s)", name, len(got), len(orig), expDesc(exp[name]), out.exit, out.killedBy)
 			out.vfile = name
@@ -449,7 +487,7 @@ func (e *fsEngine) execFault(in *fsInput, exp map[string][]byte, f fsFault) (*fs
 			}
 			want := exp[name]
 			if isArg[name] {
-				want = e.altExp
+				want = e.altExpFor(in)
 			}
 			if !bytes.Equal(got, pre[name]) && !(want != nil && bytes.Equal(got, want)) {
 				out.violation = fmt.Sprintf("a first run was stopped by the fault; the file was then edited (%d bytes) and `falco fmt -w` run again without any fault (exit=%d killed=%v): %s now holds %d bytes that are neither what it held before that run nor the %s text of `falco fmt`; it ends %q", len(pre[name]), exit2, killed2, name, len(got), expDesc(want), clipTail(string(got), 60))
@@ -460,6 +498,58 @@ func (e *fsEngine) execFault(in *fsInput, exp map[string][]byte, f fsFault) (*fs
 		}
 	}
 	return out, nil
+}
+
+// styleChangedByConfigFault: the injected fault hit a call on the project's
+// .falco.yaml / .falco.yml, the command did not fail, and `falco fmt name` run
+// under the same fault (same call, same path) prints got.
+func (e *fsEngine) styleChangedByConfigFault(in *fsInput, name string, f fsFault, out *fsOutcome, got []byte) bool {
+	if f.Kind != "inject" || f.Fault == "kill" || out.log == nil || out.exit != 0 || out.killedBy != "" {
+		return false
+	}
+	isConf := func(ev frEvent) bool {
+		for _, p := range ev.Paths {
+			if b := filepath.Base(p); b == ".falco.yaml" || b == ".falco.yml" {
+				return true
+			}
+		}
+		return false
+	}
+	var hit *frEvent
+	for i := range out.log.Events {
+		if out.log.Events[i].Injected != "" {
+			hit = &out.log.Events[i]
+			break
+		}
+	}
+	if hit == nil || !isConf(*hit) {
+		return false
+	}
+	dir := e.newCaseDir()
+	defer os.RemoveAll(dir)
+	if err := materialise(dir, in); err != nil {
+		return false
+	}
+	logPath := filepath.Join(e.root, fmt.Sprintf("log-%s.json", filepath.Base(dir)))
+	defer os.Remove(logPath)
+	so, _, exit, _, err := runCmd(dir, 120*time.Second, e.faultrun, "-root", dir, "-log", logPath, "-index", fmt.Sprint(f.Index), "-fault", f.Fault, "--", e.falco, "fmt", name)
+	if err != nil || exit != 0 {
+		return false
+	}
+	b, err := os.ReadFile(logPath)
+	if err != nil {
+		return false
+	}
+	var lg frLog
+	if json.Unmarshal(b, &lg) != nil || lg.ExitCode != 0 || lg.Signaled {
+		return false
+	}
+	for _, ev := range lg.Events {
+		if ev.Injected != "" {
+			return ev.Name == hit.Name && isConf(ev) && bytes.Equal(so, got)
+		}
+	}
+	return false
 }
 
 func clipTail(s string, n int) string {
@@ -886,6 +976,15 @@ func fsInputs(tier string, seed uint64) []*fsInput {
 	add("mixed", "hand/formatted-then-unformatted", map[string]string{"a.vcl": fmtd, "b.vcl": decl, "c.vcl": fmtd, "d.vcl": decl + "\nbackend F_y { .host = \"y\"; }\n"}, []string{"a.vcl", "b.vcl", "c.vcl", "d.vcl"}).Canon = []string{"a.vcl", "c.vcl"}
 	add("mixed", "hand/unformatted-then-formatted", map[string]string{"a.vcl": decl, "b.vcl": fmtd, "c.vcl": "", "d.vcl": fmtd}, []string{"a.vcl", "b.vcl", "c.vcl", "d.vcl"}).Canon = []string{"b.vcl", "d.vcl"}
 	add("formatted", "hand/canonical", map[string]string{"a.vcl": decl}, []string{"a.vcl"}).Canon = []string{"a.vcl"}
+	// a functional subroutine; a project configuration that differs from the defaults; files of one
+	// invocation that share a long compound condition at different nesting depths
+	fn := "sub is_ok(STRING var.s)    BOOL {\n      return var.s ==   \"ok\";\n}\nsub vcl_recv {\n if(is_ok(req.http.X)){ esi; }\n}\n"
+	add("decl", "hand/functional-sub", map[string]string{"a.vcl": fn}, []string{"a.vcl"})
+	add("config", "hand/with-project-config", map[string]string{"a.vcl": decl, ".falco.yaml": "format:\n  indent_width: 4\n  line_width: 60\n  indent_case_labels: true\n  comment_style: sharp\n"}, []string{"a.vcl"})
+	cond := "req.http.Alpha-Header == \"alpha-value\" && req.http.Beta-Header == \"beta-value\" || req.http.Gamma-Header ~ \"^gamma-value\" && req.http.Delta-Header != \"delta-value\""
+	shallow := "sub vcl_recv {\n  if (" + cond + ") {\n esi;\n  }\n}\n"
+	deep := "sub vcl_recv {\n  if (req.http.A) {\n    if (req.http.B) {\n      if (req.http.C) {\n        if (" + cond + ") {\n esi;\n        }\n      }\n    }\n  }\n}\n"
+	add("mixed", "hand/same-condition-two-depths", map[string]string{"a.vcl": shallow, "b.vcl": deep, "c.vcl": shallow}, []string{"a.vcl", "b.vcl", "c.vcl"})
 	// many files in one invocation, every one different in length and content
 	many := map[string]string{}
 	var margs []string
